@@ -2,7 +2,7 @@
    Property theorems only (proved in P_Frames_Fault.v) about the model functions of M_Frames.v
    that the generated case files evaluate ([extract], [outermost], [run], [flatten], [ctx_step]),
    under the guard record [src_guards] regenerated from the source of extract_iter. *)
-Require Import Base M_Frames M_Frames_Fault P_Frames_Fault.
+Require Import Base M_Frames M_Frames_Fault P_Frames_Fault P_Frames_TwoRun.
 From SS.gen Require Import SrcFacts.
 
 (* a configuration exercising every call site: sequence and iterator unwraps, an inserting
@@ -84,6 +84,44 @@ Example C05_errors_in_order_ex :
   exists frs lf es, extract (ex_cfg [3; 5; 12; 16]) (IObj 0) = Ok (Stack frs lf es) /\ efaults es = [3; 5; 12].
 Proof. do 3 eexists. split; vm_compute; reflexivity. Qed.
 
+(* LOCATION.  Every child Stack k below the frames of the result (context children built by
+   extract_child) is the result of a nested run started with empty frame and error lists at some
+   tick a and finished at tick b; k's tree reports exactly the faults fired in [a,b), and the
+   error list of the Stack around it contains no tick of [a,b): a fault fired while a nested
+   extraction was running is recorded on that nested Stack (or, recursively -- k is itself a run,
+   so the theorem applies to it -- on a Stack nested inside it), never on the outer one. *)
+Theorem C05_error_location : forall c root frs lf es,
+  grd c = src_guards -> extract c root = Ok (Stack frs lf es) -> located c frs es.
+Proof. exact extract_error_location. Qed.
+Print Assumptions C05_error_location.
+
+Theorem C05_error_location_any_state : forall fuel first c tu te errs out t frs lf es t' P,
+  grd c = all_guards ->
+  run fuel first c tu te errs out t = (Ok (Stack frs lf es), t') ->
+  QL c P errs t -> (forall k, In k (fouts_kids out) -> P k) ->
+  located c frs es.
+Proof. exact run_located. Qed.
+Print Assumptions C05_error_location_any_state.
+
+
+Example C05_error_location_ex :
+  exists frs lf es k, extract (ex_cfg [3; 9; 12]) (IObj 0) = Ok (Stack frs lf es) /\
+    In k (fouts_kids frs) /\ efaults (s_errs k) = [9; 12] /\ efaults es = [3] /\
+    run 3999 false (ex_cfg [3; 9; 12]) (root_q (ex_cfg [3; 9; 12]) (IObj 1)) [] [] [] 6 = (Ok k, 13).
+Proof. do 4 eexists. split; [vm_compute; reflexivity|]. split; [left; reflexivity|]. vm_compute. repeat split; reflexivity. Qed.
+
+(* SHAPE.  Stack.error as extract_child builds it from the saved errors ([error_of]: none -> None,
+   exactly one -> the exception itself, two or more -> an ExceptionGroup of all of them in order)
+   loses nothing: the list the harness reads back ([errs_of]) is the model's error list, a single
+   error is never wrapped and a group never has fewer than two members. *)
+Theorem C05_error_shape : forall l,
+  errs_of (error_of l) = l /\
+  (error_of l = ENoError <-> l = []) /\
+  (forall e, error_of l = ESingle e <-> l = [e]) /\
+  (forall g, error_of l = EGroup g <-> (g = l /\ 2 <= length l)).
+Proof. exact error_shape. Qed.
+Print Assumptions C05_error_shape.
+
 (* frames already yielded and errors already recorded are never dropped, reordered or altered by
    anything that happens later in the traversal (any hook results, any faults, any guards):
    they are a prefix of the final frames / errors *)
@@ -92,10 +130,55 @@ Theorem C05_prefix_kept : forall fuel first c tu te errs out t frs lf es t',
   (exists nf, frs = rev out ++ nf) /\ (exists ne, es = rev errs ++ ne).
 Proof. exact run_keeps. Qed.
 Print Assumptions C05_prefix_kept.
-(* NOT proved here (checked at run time by the direct oracle of harness/c05.py and by
-   harness/c05_real.py):  forall c fl T, (forall t, t < T -> fl t = false) ->
-     firstn (frames yielded before tick T) of extract (with_faults c fl) root
-     = the same prefix of extract (no_faults c) root. *)
+(* TWO-RUN FORM.  [runT] is [run] that additionally stamps every yielded frame with the tick at
+   which it was yielded; forgetting the stamps gives M_Frames.run itself. *)
+Theorem C05_instrumented_is_run : forall fuel first c tu te errs outp t,
+  fst (runT fuel first c tu te errs outp t) = run fuel first c tu te errs (map fst outp) t.
+Proof. exact runT_erase. Qed.
+Print Assumptions C05_instrumented_is_run.
+
+(* the same tables under two fault sets that agree on every tick below T yield exactly the same
+   frames (same frame, flags, origin, contexts, child stacks), in the same order and at the same
+   ticks, up to tick T -- from any state, for all tables *)
+Theorem C05_prefix_two_run : forall fuel first c fl T tu te errs outp t s1 t1 ps1 s2 t2 ps2,
+  grd c = all_guards -> (forall x, x < T -> fl x = fault c x) ->
+  runT fuel first c tu te errs outp t = (Ok s1, t1, ps1) ->
+  runT fuel first (with_faults c fl) tu te errs outp t = (Ok s2, t2, ps2) ->
+  upto T ps1 = upto T ps2.
+Proof. exact two_run_prefix. Qed.
+Print Assumptions C05_prefix_two_run.
+
+(* faulty extraction against the fault-free one, T = the first fired fault: every frame outward of
+   the failure (yielded before tick T was consumed) is present in both, identical, same order *)
+Theorem C05_prefix_vs_fault_free : forall c fl T root s1 t1 ps1 s2 t2 ps2,
+  grd c = src_guards -> (forall x, x < T -> fl x = false) ->
+  runT default_fuel false (no_faults c) (root_q c root) [] [] [] 0 = (Ok s1, t1, ps1) ->
+  runT default_fuel false (with_faults c fl) (root_q c root) [] [] [] 0 = (Ok s2, t2, ps2) ->
+  upto T ps1 = upto T ps2
+  /\ extract (no_faults c) root = Ok s1 /\ s_frames s1 = map fst ps1
+  /\ extract (with_faults c fl) root = Ok s2 /\ s_frames s2 = map fst ps2.
+Proof. exact extract_prefix_vs_fault_free. Qed.
+Print Assumptions C05_prefix_vs_fault_free.
+
+Example C05_prefix_vs_fault_free_ex :
+  let c := ex_cfg [] in let fl := fun x => x =? 23 in
+  (forall x, x < 23 -> fl x = false) /\
+  map (fun p => f_py (fst p)) (upto 23 (snd (runT 100 false (no_faults c) (root_q c (IObj 0)) [] [] [] 0))) = [0; 1] /\
+  map (fun p => f_py (fst p)) (upto 23 (snd (runT 100 false (with_faults c fl) (root_q c (IObj 0)) [] [] [] 0))) = [0; 1] /\
+  map f_py (map fst (snd (runT 100 false (no_faults c) (root_q c (IObj 0)) [] [] [] 0))) = [0; 1; 4; 2; 3] /\
+  map f_py (map fst (snd (runT 100 false (with_faults c fl) (root_q c (IObj 0)) [] [] [] 0))) = [0; 1; 4; 3].
+Proof.
+  split; [intros x L; apply Nat.eqb_neq; lia|]. vm_compute. repeat split; reflexivity.
+Qed.
+
+(* faults that do not fire have no effect: a successful run consults only the fault ticks it
+   consumes, so any fault set agreeing with c's on [t,t') gives the identical result *)
+Theorem C05_fault_locality : forall fuel fl first c tu te errs out t s t',
+  grd c = all_guards ->
+  run fuel first c tu te errs out t = (Ok s, t') -> agree c fl t t' ->
+  run fuel first (with_faults c fl) tu te errs out t = (Ok s, t').
+Proof. exact run_local. Qed.
+Print Assumptions C05_fault_locality.
 
 (* a failing elaborate_frame (own exception or injected fault): the frame is kept with
    hide = false and the contexts it had, exactly one error is recorded after the earlier ones,
